@@ -436,6 +436,10 @@ def _write_longstring(file: IO[str], extended: bool, text: str, *, indent: str) 
         if split_pos == (-1 + 1):
             # Not found, just split exactly at the end.
             split_pos = LIMIT
+            # But not between a backslash and the character it escapes.
+            trailing = split_pos - len(remaining[:split_pos].rstrip('\\'))
+            if trailing % 2:
+                split_pos -= 1
         sections.append(f'"{remaining[:split_pos]}"')
         remaining = remaining[split_pos:]
 
